@@ -20,7 +20,6 @@ import (
 	"encoding/binary"
 	"errors"
 	"fmt"
-	"os"
 	"strconv"
 	"strings"
 	"sync"
@@ -679,9 +678,6 @@ func c12ProposeOn(rt *multiraft.Runtime, s multiraft.SlotID, nextID *uint64, fut
 		case errors.Is(err, context.DeadlineExceeded):
 			*futs = append(*futs, fmt.Sprintf("F%d.%d:timeout", s, id))
 		default:
-			if os.Getenv("C12_DEBUG") != "" {
-				fmt.Fprintf(os.Stderr, "DEBUG future %d err=%v\n", id, err)
-			}
 			*futs = append(*futs, fmt.Sprintf("F%d.%d:err", s, id))
 		}
 	}()
@@ -724,12 +720,7 @@ func c12StaleFuture(c *c12Cluster, r *Rand, nextID *uint64, futs *[]string, fmu 
 	c.net.mu.Unlock()
 	k := r.Range(3, 5)
 	for i := 0; i < k; i++ { // tracked on the isolated leader, can never commit there
-		c12ProposeOn(oldRT, s, nextID, futs, fmu, fwg, 5500*time.Millisecond)
-	}
-	if os.Getenv("C12_DEBUG") != "" {
-		time.Sleep(50 * time.Millisecond)
-		sub, pend, role := multiraft.VerifPendingFutures(oldRT, s)
-		fmt.Fprintf(os.Stderr, "DEBUG isolated: submitted=%d pending=%d role=%v\n", sub, pend, role)
+		c12ProposeOn(oldRT, s, nextID, futs, fmu, fwg, 2500*time.Millisecond)
 	}
 	// the majority elects a new leader
 	var newRT *multiraft.Runtime
@@ -766,12 +757,6 @@ func c12StaleFuture(c *c12Cluster, r *Rand, nextID *uint64, futs *[]string, fmu 
 	c.net.mu.Lock()
 	c.net.blocked = map[[2]multiraft.NodeID]bool{}
 	c.net.mu.Unlock()
-	if os.Getenv("C12_DEBUG") != "" {
-		time.Sleep(400 * time.Millisecond)
-		st, err := oldRT.Status(s)
-		sub, pend, role := multiraft.VerifPendingFutures(oldRT, s)
-		fmt.Fprintf(os.Stderr, "DEBUG old=%d role=%v term=%d commit=%d applied=%d err=%v submitted=%d pending=%d role=%v\n", old, st.Role, st.Term, st.CommitIndex, st.AppliedIndex, err, sub, pend, role)
-	}
 }
 
 func c12Propose(c *c12Cluster, r *Rand, nextID *uint64, futs *[]string, fmu *sync.Mutex, fwg *sync.WaitGroup) {
